@@ -139,12 +139,14 @@ def gen_loops(rng, fresh):
     nloops = rng.choice((1, 2, 2, 2, 3))
     plain_results = []
     excluded = []
+    seeds0 = rng.sample(range(6), nloops)     # distinct: requested seeds are
+    #                                           distinct SELECT statements
     for li in range(nloops):
         seed = fresh()
         k, mode = rng.choice(((2, None), (2, None), (4, None), (3, 'diamond')))
         members = [fresh() for _ in range(k)]
         lines.append('@Ground(%s);' % seed)
-        lines.append('%s() = %d;' % (seed, rng.randint(0, 3)))
+        lines.append('%s() = %d;' % (seed, seeds0[li]))
         preds.append({'name': seed, 'kind': 'loop_seed', 'sources': []})
         # which members read an earlier result
         readers = {}
